@@ -23,7 +23,7 @@ RULE = (
 )
 ASSUMPTIONS = ["reference decoder canonicalisation rules: reserved bytes zeroed, bytes after a config terminator dropped"]
 FLOORS = {"quick": {"accepted_sd": 10000, "accepted_someip": 5000, "accepted_entry": 3000, "accepted_option": 5000,
-                    "sd_resolved_cycles": 10000, "noncanonical_inputs": 5000, "kept_unknown_elements": 3000,
+                    "sd_resolved_cycles": 10000, "sd_forward_cycles": 5000, "noncanonical_inputs": 5000, "kept_unknown_elements": 3000,
                     "independent_cross_reads": 10000,
                     "mesh_scenarios": 100, "mesh_wire_roundtrips": 4800}}
 # system-level shards: the mesh workload of pv/mesh.py under this property's boundary monitors (reports of other monitors are dropped)
@@ -93,6 +93,24 @@ def check_sd(H, b, ctx, replay):
             problems.append("resolved cycle changes flags")
     except Exception as exc:
         problems.append(f"resolved cycle raised {exc!r}")
+    # the forwarding cycle: the decoded, resolved entries are put into a fresh message (what send_sd does with the entries an
+    # application hands back to it) - decoding that one gives the same entries with the same runs
+    try:
+        r1 = v.resolve_options()
+        fresh = H.SOMEIPSDHeader(entries=r1.entries, flag_reboot=v.flag_reboot, flag_unicast=v.flag_unicast,
+                                 flags_unknown=v.flags_unknown)
+        try:
+            b4 = bytes(fresh.assign_option_indexes().build())
+        except Exception:  # noqa: B902  (without the carried-over array the entries may need more than the format can hold)
+            b4 = None
+            ctx.count("sd_forward_cycles_not_representable")
+        if b4 is not None:
+            r4 = H.SOMEIPSDHeader.parse(b4)[0].resolve_options()
+            ctx.count("sd_forward_cycles")
+            if r4.entries != r1.entries:
+                problems.append("resolved entries put into a fresh message decode to other entries / option runs")
+    except Exception as exc:
+        problems.append(f"forward cycle raised {exc!r}")
     # the relay's cycle: the decoded header is sent on through the same assign + build helper every outgoing message goes through,
     # without resolving it first - for entries that already carry their indexes the assignment is a no-op
     try:
